@@ -312,6 +312,44 @@ def generate(seed, run, tier="quick", overrides=None):
     return params, steps
 
 
+def shrink_step(st):
+    """candidate simplifications of one step (argument-level minimisation)"""
+    out = []
+    op = st["op"]
+    if op == "build":
+        if len(st["terms"]) > 1:
+            for i in range(len(st["terms"])):
+                out.append(dict(st, terms=st["terms"][:i] + st["terms"][i + 1:]))
+        for ti, t in enumerate(st["terms"]):
+            if len(t["atoms"]) > 1:
+                for ai in range(len(t["atoms"])):
+                    t2 = dict(t, atoms=t["atoms"][:ai] + t["atoms"][ai + 1:])
+                    out.append(dict(st, terms=st["terms"][:ti] + [t2] + st["terms"][ti + 1:]))
+            if t["pref"] != [1, 1]:
+                t2 = dict(t, pref=[1, 1])
+                out.append(dict(st, terms=st["terms"][:ti] + [t2] + st["terms"][ti + 1:]))
+        if st["targets"]:
+            for i in range(len(st["targets"])):
+                out.append(dict(st, targets=st["targets"][:i] + st["targets"][i + 1:]))
+    elif op == "reg.generic":
+        for k, v in st["kw"].items():
+            if len(st["kw"]) > 1:
+                out.append(dict(st, kw={a: b for a, b in st["kw"].items() if a != k}))
+            for smaller in {max(1, v // 2), max(1, v - 1)} - {v}:
+                out.append(dict(st, kw=dict(st["kw"], **{k: smaller})))
+    elif op == "reg.get" and len(st["names"]) > 1:
+        for i in range(len(st["names"])):
+            out.append(dict(st, names=st["names"][:i] + st["names"][i + 1:],
+                            spins=st["spins"][:i] + st["spins"][i + 1:]))
+    elif op in ("rename.permute", "rename.term") and len(st.get("perms", [])) > 1:
+        for i in range(len(st["perms"])):
+            out.append(dict(st, perms=st["perms"][:i] + st["perms"][i + 1:]))
+    elif op == "rename.subs" and "pairs" in st and len(st["pairs"]) > 1:
+        for i in range(len(st["pairs"])):
+            out.append(dict(st, pairs=st["pairs"][:i] + st["pairs"][i + 1:]))
+    return out
+
+
 # ======================================================================== execution
 class Violation(Exception):
     pass
